@@ -21,7 +21,7 @@ from . import cborx, core, envgen, project, seqwalk, tlc, toolrun
 
 HASHES = {"sha-256": -16, "shake128": -18, "sha-384": -43, "sha-512": -44, "shake256": -45}
 KIDS = [0, 1, 23, 24, 255, 256, 65535, 65536, 0x4000AA00, 2**31 - 1, 2**31, 2**32 - 1]
-SIZES = [0, 1, 15, 16, 17, 31, 32, 33, 4096, 65537]
+SIZES = [0, 1, 15, 16, 17, 31, 32, 33, 4096, 65537, 64, 128, 136, 168, 8192, 65536]
 
 
 def scripts():
